@@ -260,6 +260,32 @@ def c17_template(template="{name}-{ts:%Y%m%dT%H}.records", minutes=((22, 10), (2
     return {"violates": bool(bad), "detail": bad}
 
 
+def c17_archiver():
+    from flow.record import RecordReader
+    from flow.record.stream import RecordArchiver
+
+    D = _desc()
+    gens = [datetime.datetime(2017, 12, 6, 22, 10, tzinfo=UTC), datetime.datetime(2017, 12, 7, 1, 1, tzinfo=UTC), datetime.datetime(2017, 12, 7, 1, 30, tzinfo=UTC)]
+    with tempfile.TemporaryDirectory() as td:
+        try:
+            for run in range(2):
+                w = RecordArchiver(os.path.join(td, "archive"), path_template="{name}-{ts:%H}.records", name="t")
+                for j, g in enumerate(gens):
+                    w.write(D(n=j, s=f"run{run}-{j}", _generated=g))
+                w.close()
+        except Exception as e:
+            return {"violates": True, "detail": f"raised {type(e).__name__}: {e}"}
+        found = {}
+        for root, _, files in os.walk(td):
+            for f in files:
+                with RecordReader(os.path.join(root, f)) as rd:
+                    found[os.path.relpath(os.path.join(root, f), td)] = [r.s for r in rd]
+    current = {"archive/2017/12/06/t-22.records": ["run1-0"], "archive/2017/12/07/t-01.records": ["run1-1", "run1-2"]}
+    rest = {k: v for k, v in found.items() if k not in current}
+    ok = all(found.get(k) == v for k, v in current.items()) and sorted(rest.values()) == [["run0-0"], ["run0-1", "run0-2"]] and all(k.startswith(("archive/2017/12/06/t-22.", "archive/2017/12/07/t-01.")) for k in rest)
+    return {"violates": not ok, "detail": None if ok else f"files on disk {found}"}
+
+
 def c17_rotate(same_second=True):
     try:
         bad = _rotate(same_second)
@@ -338,4 +364,4 @@ def c17_split_raw(n=3, count=1, selector=None):
     bad = out != [f"r{i}" for i in range(n)] or end != "stop"
     return {"violates": bad, "detail": f"{len(parts)} parts concatenated as raw bytes read back as {out}, ended {end}; written r0..r{n - 1}"}
 
-CALLS = {"c17_split_raw": c17_split_raw, "c17_split_target": c17_split_target, "c17_template": c17_template, "c17_history": c17_history, "c17_split": c17_split, "c17_rotate": c17_rotate, "c17_sweep": c17_sweep}
+CALLS = {"c17_archiver": c17_archiver, "c17_split_raw": c17_split_raw, "c17_split_target": c17_split_target, "c17_template": c17_template, "c17_history": c17_history, "c17_split": c17_split, "c17_rotate": c17_rotate, "c17_sweep": c17_sweep}
